@@ -250,7 +250,26 @@ theorem cov_finishers (c : Cov) (ps : List (Rat × Rat)) (h : CovRep c ps) :
     have h1' : c.count ≤ 1 := by omega
     rw [Cov.covarSamp, if_pos h1']
 
+-- OBLIGATION: PysparklingVerif.C17.corr_is_pearson_or_nan
+/-- `corr` is Pearson's r (its square, the root not being rational) of the textbook co-moments, and NaN exactly where
+these are degenerate - in particular for an empty dataset and for a single row, for every partitioning -/
+theorem corr_is_pearson_or_nan (c : Cov) (ps : List (Rat × Rat)) (h : CovRep c ps) :
+    (c.corrSq = if ssd (ps.map (·.1)) * ssd (ps.map (·.2)) = 0 then none
+                else some (scp ps * scp ps / (ssd (ps.map (·.1)) * ssd (ps.map (·.2))))) ∧
+    (ps.length ≤ 1 → c.corrSq = none) := by
+  obtain ⟨_, _, _, hck, hmx, hmy⟩ := h
+  refine ⟨by rw [Cov.corrSq, hck, hmx, hmy], ?_⟩
+  intro h1
+  have hz : ssd (ps.map (·.1)) = 0 := by
+    match ps, h1 with
+    | [], _ => simp [ssd, lsum]
+    | [p], _ => simp [ssd, lsum, mean]
+  rw [Cov.corrSq, hmx, hz]; simp
+
 -- non-vacuity
+example : (cov [[(1, 2)], [], [(2, 4), (3, 7)]]).corrSq = some (75 / 76) := by decide +kernel
+example : (cov [[], []]).corrSq = none := by decide +kernel
+example : (cov [[(1, 2)], [(1, 3)]]).corrSq = none := by decide +kernel
 example : (stats [[1, 2], [], [3, 6]]).variance = some (7 / 2) := by decide +kernel
 example : (stats [[], []]).variance = none := by decide +kernel
 example : ((stats [[1, 2, 3]]).selfMerge).n = 6 := by decide +kernel
